@@ -63,6 +63,17 @@ from vsc.model.solvegroup_swizzler_partsel import SolveGroupSwizzlerPartsel
 from vsc.impl.ctor import glbl_debug, glbl_solvefail_debug
 
 
+def _btor_opt(name):
+    # PyBoolector 3.2.2+ exposes the solver options on the BtorOption
+    # enum instead of as module-level attributes
+    if hasattr(pyboolector, name):
+        return getattr(pyboolector, name)
+    return getattr(pyboolector.BtorOption, name)
+
+BTOR_OPT_INCREMENTAL = _btor_opt("BTOR_OPT_INCREMENTAL")
+BTOR_OPT_MODEL_GEN = _btor_opt("BTOR_OPT_MODEL_GEN")
+
+
 class Randomizer(RandIF):
     """Implements the core randomization algorithm"""
     
@@ -142,8 +153,8 @@ class Randomizer(RandIF):
         while rs_i < len(ri.randsets()):
             btor = Boolector()
             self.btor = btor
-            btor.Set_opt(pyboolector.BTOR_OPT_INCREMENTAL, True)
-            btor.Set_opt(pyboolector.BTOR_OPT_MODEL_GEN, True)
+            btor.Set_opt(BTOR_OPT_INCREMENTAL, True)
+            btor.Set_opt(BTOR_OPT_MODEL_GEN, True)
             
             start_rs_i = rs_i
 
@@ -307,8 +318,8 @@ class Randomizer(RandIF):
         ret = ""
         
         btor = Boolector()
-        btor.Set_opt(pyboolector.BTOR_OPT_INCREMENTAL, True)
-        btor.Set_opt(pyboolector.BTOR_OPT_MODEL_GEN, True)
+        btor.Set_opt(BTOR_OPT_INCREMENTAL, True)
+        btor.Set_opt(BTOR_OPT_MODEL_GEN, True)
         model_valid = False
         
         diagnostic_constraint_l = [] 
@@ -384,8 +395,8 @@ class Randomizer(RandIF):
     def create_diagnostics(self, active_randsets) -> str:
         
         btor = Boolector()
-        btor.Set_opt(pyboolector.BTOR_OPT_INCREMENTAL, True)
-        btor.Set_opt(pyboolector.BTOR_OPT_MODEL_GEN, True)
+        btor.Set_opt(BTOR_OPT_INCREMENTAL, True)
+        btor.Set_opt(BTOR_OPT_MODEL_GEN, True)
         model_valid = False
         
         diagnostic_constraint_l = [] 
